@@ -224,3 +224,21 @@
 ; (parent, index) (assumption A-LIB2).
 (declare-fun hd.master (Bytes) Ref)
 (declare-fun hd.derive (Ref Int) Ref)
+
+;@module clock
+;@ghost clk.now Int
+
+;@module schnorr group
+;@gotype github.com/btcsuite/btcd/btcec/v2/schnorr.Signature
+(declare-fun sig.parseok (Bytes) Bool)
+(declare-fun sig.parse (Bytes) github.com/btcsuite/btcd/btcec/v2/schnorr.Signature)
+(declare-fun sig.ok (github.com/btcsuite/btcd/btcec/v2/schnorr.Signature Bytes Pt) Bool)
+
+;@module locks
+;@ghost hvs.last Bool
+;@ghost hvs.calls Int
+;@monotone hvs.calls
+
+;@module nut10
+(declare-fun nut10.ok (Str) Bool)
+(declare-fun nut10.parse (Str) cashu/nuts/nut10.WellKnownSecret)
